@@ -614,13 +614,14 @@ class _STL(Entry):
 
     def spec(self, draw, flavour=0):
         # model and method are interdependent (a transformer has no predict): both configurations of a case wrap the same kind
-        kind = ["reg", "tr", "nested"][flavour % 3]
-        if kind == "nested":
+        kind = ["reg", "tr", "nested-pipeline", "nested-learner"][flavour % 4]
+        if kind.startswith("nested"):
             # keys containing 'model__' twice: a pipeline with a step named 'model', or a learner wrapping a learner
             inner = s_regressor(draw)
-            if draw(st.booleans()):
+            if kind == "nested-pipeline":
                 wrapped = dict(cls="Pipeline", params=dict(steps=[["scale", dict(cls="StandardScaler", params={})], ["model", inner]]))
-                return dict(cls=self.name, params=dict(model=wrapped, method=draw(st.sampled_from([None, "predict"]))))
+                # (the default method guess looks at the Pipeline *class*, which always advertises transform: explicit method)
+                return dict(cls=self.name, params=dict(model=wrapped, method="predict"))
             wrapped = dict(cls="SkBaseTransformLearner", params=dict(model=inner, method="predict"))
             return dict(cls=self.name, params=dict(model=wrapped, method=draw(st.sampled_from([None, "transform"]))))
         if kind == "reg":
